@@ -1,8 +1,8 @@
 """C04 - Outbound messages: field contents cannot inject structure; framing is truthful.
 
 (a) Injection.  Every code point of the tier's set is placed at the start, in the middle and at the end of
-    an otherwise benign value in 82 position variants (29 server, 16 multipart x {declared length, chunked}, 18 client,
-    3 WebSocket handshake) of the real serialisation paths (server Response /
+    an otherwise benign value in 139 position variants (29 server, 16 multipart x {declared length, chunked}, 18 client,
+    3 WebSocket handshake; plus 57 'late' variants, see below) of the real serialisation paths (server Response /
     StreamResponse on a mocked request whose writer is a real StreamWriter on a recording transport; client
     requests through a real ClientSession whose connector joins it to a scripted peer; multipart part headers;
     the WebSocket handshake request).  Oracle: a *differential line oracle* - the bytes handed to the
@@ -13,6 +13,11 @@
     encodes it: cookies, URLs, Basic auth, RFC 2231 parameters), no NUL / bare CR / bare LF occurs anywhere in
     the head (for multipart: in the whole message, its body being benign text), the body is unchanged and the
     independent reader (vlib.refhttp) finds exactly one message that ends at the last byte.
+    'Late' variants (names contain '.late.'): the value is put into an object that has already been serialised once with
+    the benign baseline value - a multipart part header / content disposition / newly appended part / FormData field after
+    the writer's size was read, after write() to a collector, after as_bytes(), or after it was sent in a complete
+    response; a payload or part header between two client requests that send the same object; the headers / cookies of
+    one HTTPException object raised for two requests; a response field set twice.  The second transmission is judged.
 
 (b) Framing.  Short-exhaustive and random programs over StreamWriter {write_headers, send_headers, write,
     write_eof, set_eof, drain}, the public server API, client request bodies and every payload class.  Oracle:
@@ -20,6 +25,10 @@
     concatenation of what was written (after one-shot zlib decoding when compressed), with exactly one
     terminating zero chunk and none before write_eof/set_eof; a length aiohttp declares itself must be the
     number of body bytes; payload.size == bytes written; write_with_length(n) writes min(n, size).
+    Every transmission counts: one payload object is put through programs of size / write() / write_with_length(n) /
+    decode() / as_bytes() and, while it does not report itself consumed, keeps its size and emits each time what a
+    fresh object emits; client requests are answered with 301/302/303/307/308 chains and every replayed request on the
+    wire is read and compared like the first; one Payload object is the body of up to three successive responses.
 """
 
 from __future__ import annotations
@@ -49,8 +58,11 @@ LEVEL_TEXT = (
     "each of 82 position variants of the real server, client, multipart and WebSocket-handshake serialisation paths (in "
     "thorough, code points above U+30FF that are not in the individually placed set are placed in the middle only, for the "
     "client/multipart/WebSocket families eight per value with individual fallback when the value is refused), plus "
-    "hostile random strings; all StreamWriter call sequences up to a length over a small alphabet under every "
-    "chunked/compress/length configuration plus random longer programs; every payload class with generated values. "
+    "hostile random strings; 57 further variants where the value is put into an object already serialised once (multipart "
+    "part / payload / HTTPException headers changed between two transmissions; all code points < U+0300, specials and a "
+    "surrogate sample, thorough: <= U+30FF and all surrogates, at start/middle/end); all StreamWriter call sequences up to a length over a small alphabet under every "
+    "chunked/compress/length configuration plus random longer programs; every payload class with generated values, each "
+    "object also transmitted repeatedly (payload-level programs, client redirect chains, successive responses). "
     "Says: held (or the listed mechanisms observed) on these executions; nothing about positions not listed, the C "
     "serialiser, or strings combining several hostile code points beyond the random sample."
 )
@@ -59,7 +71,7 @@ RULE = (
     "non-trivial = the real serialisation path was executed with that value (either outcome); distinct = distinct "
     "(position, placement, code point) in quick, (position, placement, 64-code-point block) in thorough where every "
     "code point of the block is executed; framing case = (configuration, operation program) / (payload class, value "
-    "description, length limit); non-trivial = at least one byte-producing call was made"
+    "description, length limit, re-transmission program / redirect chain); non-trivial = at least one byte-producing call was made"
 )
 ASSUMPTIONS = [
     "vlib.refhttp is a correct strict reading of RFC 9112; vlib.outrec.ChunkWalker/split_multipart are correct strict readers of RFC 9112 7.1 / RFC 2046 5.1.1",
@@ -199,6 +211,7 @@ class ClientRig:
         self.session = self.world.call(mk())
         self.reply = b"HTTP/1.1 200 OK\r\nContent-Length: 0\r\n\r\n"
         self.replies = None  # optional list of successive replies (100 Continue, then the final response)
+        self.drop_pooled = False  # the peer of every pooled connection closes as soon as it sees bytes of this request
 
     def _marks(self):
         self.peers[:] = [p for p in self.peers if p.lost is None and not p.transport.closing]
@@ -210,11 +223,12 @@ class ClientRig:
             self.peers.clear()
         return [(p, len(p.received)) for p in self.peers]
 
-    def _since(self, marks):
+    def _since(self, marks, skip=()):
         seen = {id(p): n for p, n in marks}
         chunks = []
         for p, n in marks:
-            chunks.append(bytes(p.received[n:]))
+            if id(p) not in skip:
+                chunks.append(bytes(p.received[n:]))
         for p in self.peers:
             if id(p) not in seen:
                 chunks.append(bytes(p.received))
@@ -226,6 +240,14 @@ class ClientRig:
         marks = self._marks()
         sess = self.session
         info: dict = {}
+        dropped: set = set()
+        if self.drop_pooled:
+            for p, _n in marks:
+                def closer(_data, p=p):
+                    p.on_data = None
+                    p.close()
+                p.on_data = closer
+                dropped.add(id(p))
 
         async def go():
             if ws:
@@ -258,7 +280,11 @@ class ClientRig:
         else:
             exc = task.exception()
         loop.settle()
-        chunks = self._since(marks)
+        for p, _n in marks:
+            p.on_data = None
+        # a connection the peer dropped carries a request cut short by the peer, not by aiohttp: not part of the verdict
+        chunks = self._since(marks, skip=dropped)
+        info["dropped_bytes"] = sum(len(p.received) - n for p, n in marks if id(p) in dropped)
         info["conns"] = len(chunks)
         info["chunks"] = chunks
         info["reused_after"] = any(p.lost is None and not p.transport.closing for p, _ in marks) if marks else None
@@ -632,22 +658,20 @@ def build_positions(srv: ServerRig | None, cli: ClientRig | None):
         SL("srv.late.httpexception.header.name", lambda b: web.HTTPBadRequest(text="constant", headers={"X-Probe": "one"}), lambda e, v: e.headers.__setitem__(v, "val"), exact=lambda v: _u8(v) + b": val", filler="X-abcd")
         SL("srv.late.httpexception.cookie.value", lambda b: web.HTTPBadRequest(text="constant"), lambda e, v: e.set_cookie("ck", v), prefix=b"Set-Cookie: ")
 
-        def _reset(first_set, second_set):
-            def mk_for(pos_base):
-                def mk(v):
-                    r = web.Response(body=b"hello")
-                    first_set(r, pos_base())
-                    r.headers  # noqa: B018  (read back between the two settings)
-                    r.content_type  # noqa: B018
-                    second_set(r, v)
-                    return r
-                return mk
-            return mk_for
-
         def SR(name, first_set, second_set, **kw):
-            holder: dict = {}
-            S(name, _reset(first_set, second_set)(lambda: holder["pos"].base_value), **kw)
-            holder["pos"] = P[-1]
+            """A response field set to the benign baseline value, read back, then set to the value under test."""
+            box: dict = {}
+
+            def mk(v):
+                r = web.Response(body=b"hello")
+                first_set(r, box["pos"].base_value)
+                r.headers  # noqa: B018  (read back between the two settings)
+                r.content_type  # noqa: B018
+                second_set(r, v)
+                return r
+
+            S(name, mk, **kw)
+            box["pos"] = P[-1]
 
         SR("srv.late.reason.reset", lambda r, b: r.set_status(404, b), lambda r, v: r.set_status(404, v), exact=lambda v: b"HTTP/1.1 404 " + _u8(v), filler="Fine Day")
         SR("srv.late.header.reset", lambda r, b: r.headers.__setitem__("X-Probe", b), lambda r, v: r.headers.__setitem__("X-Probe", v), exact=lambda v: b"X-Probe: " + _u8(v))
@@ -766,20 +790,37 @@ def _masked(line: bytes) -> bool:
     return line.startswith(MASKED)
 
 
+class BaselineBroken(Exception):
+    """The benign baseline of a 'late' position is itself a case of its scenario (a benign value put into an object
+    that was serialised before): when it is not one well-formed message with the value on its line, that is a verdict
+    about aiohttp, not a harness failure."""
+
+    def __init__(self, what: str, summary: str):
+        super().__init__(what, summary)
+        self.what, self.summary = what, summary
+
+
 def prepare_baseline(pos: Pos, rec):
+    late = is_late(pos.name)
+
+    def broken(what, text):
+        if late:
+            return BaselineBroken(what, text)
+        return RuntimeError(f"harness: baseline of {pos.name} {text}")
+
     e, out, _ = pos.run(pos.base_value)
     if e is not None and not (pos.family in ("client", "ws") and out):
-        raise RuntimeError(f"harness: baseline of {pos.name} refused: {e!r}")
+        raise broken("refused", f"refused: {e!r}")
     lo = _lines_of(pos, out)
     if lo is None:
-        raise RuntimeError(f"harness: baseline of {pos.name} has no head: {out[:200]!r}")
+        raise broken("no-head-end", f"has no head: {out[:200]!r}")
     lines, body, region = lo
     if O.stray_controls(region) is not None:
-        raise RuntimeError(f"harness: baseline of {pos.name} contains stray controls")
+        raise broken("stray-controls", "contains stray controls")
     # independent reader: the baseline is exactly one message
     ok, why = _one_message(pos, out)
     if ok is not True:
-        raise RuntimeError(f"harness: baseline of {pos.name} is not one well-formed message: {why}")
+        raise broken("not-one-message", f"is not one well-formed message: {why}")
     pos.base_lines, pos.base_body = lines, body
     # locate the carrying line
     if pos.startline is not None:
@@ -788,16 +829,27 @@ def prepare_baseline(pos: Pos, rec):
         want = pos.exact(pos.base_value)
         idx = [i for i, l in enumerate(lines) if l == want]
         if len(idx) != 1:
-            raise RuntimeError(f"harness: baseline of {pos.name}: carrying line {want!r} found {len(idx)} times in {lines!r}")
+            raise broken("carrying-line-count", f": carrying line {want!r} found {len(idx)} times in {lines!r}")
         pos.target = idx[0]
     else:
         idx = [i for i, l in enumerate(lines) if l.startswith(pos.prefix)]
         if len(idx) > 1:
             idx = [i for i in idx if pos.base_value.encode() in lines[i]]
         if len(idx) != 1:
-            raise RuntimeError(f"harness: baseline of {pos.name}: prefix {pos.prefix!r} found {len(idx)} times in {lines!r}")
+            raise broken("carrying-line-count", f": prefix {pos.prefix!r} found {len(idx)} times in {lines!r}")
         pos.target = idx[0]
     rec.count("baseline-ok")
+
+
+def prepare_or_report(pos: Pos, rec) -> bool:
+    """prepare_baseline; a broken baseline of a late position is reported as a violation (and the position skipped)."""
+    try:
+        prepare_baseline(pos, rec)
+        return True
+    except BaselineBroken as b:
+        rec.case((pos.name, "baseline"), True)
+        rec.violation(f"inject:late-benign-value:{b.what}:{pos.name}", f"[{pos.name} benign value {pos.base_value!r} set after the first serialisation] the message {b.summary[:400]}", {"kind": "inj", "position": pos.name, "value": _enc(pos.base_value)})
+        return False
 
 
 def _one_message(pos: Pos, out: bytes):
@@ -996,7 +1048,8 @@ def _record_case(rec, quick, name, place, c, blocks_seen):
 
 
 def run_injection_unit(pos: Pos, individual: dict, bulk, batch, rec, tier, nrand, rng, part=0, nparts=1, sample_every=0):
-    prepare_baseline(pos, rec)
+    if not prepare_or_report(pos, rec):
+        return
     name = pos.name
     quick = tier == "quick"
     n = 0
@@ -1948,6 +2001,13 @@ def gen_client_case(rng: random.Random, trigger: bool):
     if r < 0.45:
         c["redirects"] = [rng.choice((307, 308, 307, 308, 301, 302, 303)) for _ in range(rng.choice((1, 1, 2, 3)))]
         c["expect100"] = False
+    elif r < 0.6 and not trigger:
+        # (the trigger stratum's declared size is wrong on the first transmission already - F13 - and the first
+        # transmission is not observable here, so it is kept out of this scenario)
+        # the request goes out on a pooled connection that the peer closes when the first bytes arrive: the client
+        # retries once on a new connection with the same payload object (partly transmitted already)
+        c["drop_pooled"] = True
+        c["expect100"] = False
     return c
 
 
@@ -1966,11 +2026,24 @@ def run_client_case(cli: ClientRig, c: dict, scratch: Scratch, rec):
         cli.replies = [b"HTTP/1.1 100 Continue\r\n\r\n", cli.reply]
     elif redirects:
         cli.replies = [b"HTTP/1.1 %d Moved\r\nLocation: /hop%d\r\nContent-Length: 0\r\n\r\n" % (st, i + 1) for i, st in enumerate(redirects)] + [cli.reply]
+    if c.get("drop_pooled"):
+        if not any(p.lost is None and not p.transport.closing for p in cli.peers):
+            e0, _o, _i = cli.request("GET", "http://h.test/warm")  # something to pool
+            if e0 is not None:
+                raise RuntimeError(f"harness: warm-up request failed: {e0!r}")
+        cli.drop_pooled = True
     try:
         exc, out, rinfo = cli.request(c["method"], "http://h.test/upload", **kw)
     finally:
         cli.replies = None
+        cli.drop_pooled = False
     info = {"label": label, "descr": {k: v for k, v in descr.items() if not k.startswith("_")}}
+    if c.get("drop_pooled"):
+        rec.count("clientbody:pooled-connection-dropped:" + ("retried" if out else "not-retried:" + type(exc).__name__ + ":" + label))
+        if rinfo.get("dropped_bytes"):
+            rec.count("clientbody:pooled-connection-dropped:bytes-seen-before-close")
+        if not out and exc is not None and rinfo.get("dropped_bytes"):
+            return V, info  # gave up after the dropped connection (consumed payload): an error, nothing further on the wire
     if not out:
         if exc is None:
             V.append((f"clientbody:no-bytes-no-error:{label}", "nothing written, no error"))
@@ -1983,6 +2056,8 @@ def run_client_case(cli: ClientRig, c: dict, scratch: Scratch, rec):
         pos = 0
         while pos < len(chunk):
             what = "clientbody" if idx == 0 else "clientbody:replay"
+            if idx == 0 and c.get("drop_pooled") and rinfo.get("dropped_bytes"):
+                what = "clientbody:retry"  # second transmission of the payload, after a dropped connection
             if idx > len(redirects):
                 V.append((f"clientbody:bytes-after-message:{label}", f"{len(chunk) - pos} bytes after the end of the last expected request message ({idx} read); exc={exc!r}"))
                 return V, info
@@ -2021,6 +2096,8 @@ def run_client_case(cli: ClientRig, c: dict, scratch: Scratch, rec):
                     return V, info
             if idx > 0:
                 rec.count("clientbody:replay:body-ok:" + label)
+            elif c.get("drop_pooled") and rinfo.get("dropped_bytes"):
+                rec.count("clientbody:retry-after-drop:body-ok:" + label)
             idx += 1
     if redirects:
         if idx == len(redirects) + 1:
@@ -2348,9 +2425,9 @@ def shards(tier, seed):
     if tier == "quick":
         out.append({"kind": "prog", "mode": "exhaustive", "maxpre": 2, "part": 0, "nparts": 1})
         out.append({"kind": "prog", "mode": "random", "n": 6000})
-        out.append({"kind": "api", "n": 2500})
-        out.append({"kind": "clientbody", "n": 1500})
-        out.append({"kind": "payload", "n": 1200})
+        out.append({"kind": "api", "n": 4000})
+        out.append({"kind": "clientbody", "n": 4000})
+        out.append({"kind": "payload", "n": 3000})
     else:
         for k in range(4):
             out.append({"kind": "prog", "mode": "exhaustive", "maxpre": 3, "part": k, "nparts": 4})
@@ -2395,7 +2472,8 @@ def replay(witness, rec):
             v = _dec(witness["value"])
 
             def go():
-                prepare_baseline(pos, rec)
+                if not prepare_or_report(pos, rec):
+                    return
                 exc, out, info = pos.run(v)
                 V, outcome = judge_injection(pos, v, exc, out, info, rec)
                 rec.case((name, "replay", witness["value"]), True)
